@@ -14,10 +14,15 @@
 (***************************************************************************)
 EXTENDS OptionStore, OptionScenarios, Json, IOUtils
 
-VARIABLES c, ph, st, ok
-vars == <<c, ph, st, ok>>
+CONSTANT Families        \* set of scenario families to include, e.g. {"prec", "bt", "prefix", "machine", "module", "invalid"}
+CONSTANT SelKinds        \* option kinds of the "prec" family to include (quick tier: a rotating subset)
+VARIABLES ci, ph, st, ok
+vars == <<ci, ph, st, ok>>
 
-Cases == AllCases
+RECURSIVE Concat(_, _)
+Concat(fams, i) == IF i > Len(fams) THEN <<>> ELSE FamilySeq(fams[i], SelKinds) \o Concat(fams, i + 1)
+CaseSeq == Concat(SelectSeq(AllFamilies, LAMBDA f : f \in Families), 1)
+c == CaseSeq[ci]
 
 Latent(cs) == {cs.opts[i].name : i \in {j \in 1..Len(cs.opts) : cs.opts[j].late # "no"}}
 
@@ -43,10 +48,10 @@ Phase(s, cs, p) ==
       [] p = 4 -> InitSub(s, cs.lv)
       [] p = 5 -> AddFrom(s, SelectSeq(cs.opts, LAMBDA o : o.scope = "g" /\ o.late # "no"), 1, TRUE)
 
-Init == c \in Cases /\ ph = 0 /\ st = EmptyStore(c.cross, Latent(c)) /\ ok = TRUE
+Init == ci \in 1..Len(CaseSeq) /\ ph = 0 /\ st = EmptyStore(c.cross, Latent(c)) /\ ok = TRUE
 Next == /\ ph < 6 /\ ok
         /\ LET r == Phase(st, c, ph) IN st' = r.st /\ ok' = r.ok
-        /\ ph' = ph + 1 /\ c' = c
+        /\ ph' = ph + 1 /\ ci' = ci
 Spec == Init /\ [][Next]_vars
 
 QKey(q) == Key(q.name, IF q.scope = "s" THEN "sub" ELSE IF HasDecl(c, q.name, "g") THEN G ELSE "", q.m)
@@ -68,5 +73,5 @@ CanonIsSound == \A i \in 1..Len(c.opts) : \A l \in 1..8 : \A j \in 1..Len(c.lv[l
                     c.lv[l][j].name = c.opts[i].name => CanonSound(c.opts[i].d, c.lv[l][j].r)
 NothingPendingAtEnd == (ph = 6 /\ ok) => (DOMAIN st.pend = {} /\ DOMAIN st.psub = {})
 
-EmitCases == TLCGet("stats").diameter >= 0 /\ JsonSerialize("cases.json", SetToSeqR(Cases))
+EmitCases == TLCGet("stats").diameter >= 0 /\ JsonSerialize("cases.json", CaseSeq)
 =============================================================================
